@@ -311,7 +311,7 @@ func main() {
 		}
 		plans := []plan{{"2x1", -1, 0}, {"2x2", -1, 0}, {"3x1", -1, 0}, {"2x3", 3, 0}, {"3x2", 2, 0}, {"4x1", 2, 0}, {"2x2", -1, 1}, {"3x1", 2, 1}}
 		if !r.Quick() {
-			plans = []plan{{"2x1", -1, 0}, {"2x2", -1, 0}, {"3x1", -1, 0}, {"2x3", -1, 0}, {"4x1", -1, 0}, {"3x2", 4, 0}, {"4x2", 3, 0}, {"3x3", 3, 0}, {"2x2", -1, 1}, {"3x1", -1, 1}, {"2x3", 3, 1}, {"2x2", -1, 2}}
+			plans = []plan{{"2x1", -1, 0}, {"2x2", -1, 0}, {"3x1", -1, 0}, {"2x3", -1, 0}, {"3x2", 4, 0}, {"4x2", 3, 0}, {"3x3", 3, 0}, {"2x2", -1, 1}, {"3x1", -1, 1}, {"2x3", 3, 1}, {"2x2", -1, 2}, {"4x1", -1, 0}} // the largest unbounded exploration last
 		}
 		// The free-running supplements come first: they are short and bounded, and a tree whose schedule exploration uses up
 		// the whole budget must still get them.
